@@ -6,9 +6,10 @@
 //@ def all SB_LIMIT=128 SB_FROM=XMLASCIITranscoder_transcodeFrom SB_TO=XMLASCIITranscoder_transcodeTo SB_CAN=XMLASCIITranscoder_canTranscodeTo
 //@ cbmc all --unwind 8 --unwinding-assertions
 //@ entry h_sbcs_w
-//@ note W: complete for every byte / unit string of length <= NB, every maxChars / maxBytes <= MC, both UnRepOpts, every 32-bit argument of canTranscodeTo (loops fully unwound, unwinding assertions on); unbounded lengths: units ascii_from, ascii_to (P)
+//@ note W: complete for every byte / unit string of length <= NB, every maxChars / maxBytes <= MC, both UnRepOpts, every 32-bit argument of canTranscodeTo (loops fully unwound, unwinding assertions on); longer buffers: ascii_from (W, 34+ bytes), unbounded encoder lengths: ascii_to (P)
 //@ note spec: US-ASCII (ANSI X3.4-1986 / ISO 646-US) is the identity onto U+0000..U+007F; bytes 80..FF are not in the code set; harness shared with latin1_w (contracts/sbcs_w_harness.inc)
 //@ note XMLString::binToText (exception message text only), getMemoryManager() and getEncodingName() are dropped
+//@ note the decoder's "more than 32 good characters: stop in front of the bad byte instead of throwing" branch is unreachable at these widths; it is covered by ascii_from (W, NB >= 34)
 #define VERIF_DEFINE_GHOSTS
 #include "verif_prelude.h"
 
